@@ -63,6 +63,7 @@ type dirRepoUpload struct {
 	filename  string
 	dr        *dirRepo
 	sessionID string
+	locked    bool // created by a caller that holds the repo lock until the upload is closed
 }
 
 // NewDir returns a directory store.
@@ -394,6 +395,10 @@ func (dr *dirRepo) blobCreate(locked bool, opts ...BlobOpt) (BlobCreator, string
 			return nil, "", err
 		}
 	}
+	if !locked {
+		dr.mu.Lock()
+		defer dr.mu.Unlock()
+	}
 	// if blob exists, return the appropriate error
 	if conf.expect != "" {
 		if err := conf.expect.Validate(); err != nil {
@@ -403,21 +408,12 @@ func (dr *dirRepo) blobCreate(locked bool, opts ...BlobOpt) (BlobCreator, string
 		_, err := os.Stat(blobName)
 		if err == nil {
 			// the caller reports this as a successful upload, restart the GC grace period of the blob
+			// (under the repo lock, a running GC has either seen the new time or has already removed the blob)
 			now := time.Now()
 			_ = os.Chtimes(blobName, now, now)
-			if !locked {
-				dr.mu.Lock()
-			}
 			dr.timeMod = now
-			if !locked {
-				dr.mu.Unlock()
-			}
 			return nil, "", types.ErrBlobExists
 		}
-	}
-	if !locked {
-		dr.mu.Lock()
-		defer dr.mu.Unlock()
 	}
 	sessionID, err := genSessionID()
 	if err != nil {
@@ -456,6 +452,7 @@ func (dr *dirRepo) blobCreate(locked bool, opts ...BlobOpt) (BlobCreator, string
 		filename:  filename,
 		dr:        dr,
 		sessionID: sessionID,
+		locked:    locked,
 	}
 	dr.timeMod = time.Now()
 	dr.uploads.Set(sessionID, bc)
@@ -824,9 +821,18 @@ func (dru *dirRepoUpload) Close() error {
 	}
 	blobName := filepath.Join(tgtDir, dru.d.Digest().Encoded())
 	// the GC grace period starts when the upload completes, not at the last write to the temp file
+	// (under the repo lock, a GC that has judged an older blob of this digest cannot remove the new one)
+	if !dru.locked {
+		dru.dr.mu.Lock()
+	}
 	now := time.Now()
 	_ = os.Chtimes(dru.filename, now, now)
-	err = errors.Join(os.Rename(dru.filename, blobName), dru.dr.uploads.Delete(dru.sessionID))
+	err = os.Rename(dru.filename, blobName)
+	dru.dr.timeMod = now
+	if !dru.locked {
+		dru.dr.mu.Unlock()
+	}
+	err = errors.Join(err, dru.dr.uploads.Delete(dru.sessionID))
 	dru.dr.log.Debug("blob created", "repo", dru.dr.name, "digest", dru.d.Digest().String(), "err", err)
 	return err
 }
